@@ -139,15 +139,8 @@ func (t *TraceServer) ExportTraceData(
 
 	t.router.Metrics.Increment(t.router.metricsNames.routerOtlpTraceGrpc)
 
-	// Perform final authentication check (key processing already done in handler)
-	apicfg := t.router.Config.GetAccessKeyConfig()
-	keyID := ""
-	if apicfg.HasKeyIDs() {
-		keyID = t.router.getKeyID(ri.ApiKey)
-	}
-	if err := apicfg.IsAccepted(ri.ApiKey, keyID); err != nil {
-		return nil, status.Error(codes.Unauthenticated, err.Error())
-	}
+	// Authentication and key processing were already done in the handler,
+	// on the key the client sent.
 
 	// Use optimized msgpack processing path with already translated data
 	if err := t.router.processOTLPRequestBatchMsgp(ctx, result.Batches, ri.ApiKey, ri.UserAgent); err != nil {
@@ -216,6 +209,11 @@ func customTraceExportHandler(
 	keyID := ""
 	if apicfg.HasKeyIDs() {
 		keyID = traceServer.router.getKeyID(ri.ApiKey)
+	}
+	// like the HTTP handlers, accept or reject the key the client sent, before
+	// it is possibly replaced with the configured SendKey
+	if err := apicfg.IsAccepted(ri.ApiKey, keyID); err != nil {
+		return nil, status.Error(codes.Unauthenticated, err.Error())
 	}
 	keyToUse, err := apicfg.GetReplaceKey(ri.ApiKey, keyID)
 	if err != nil {
